@@ -34,9 +34,22 @@ package console
 
 //vc:func (*Conn).IssueCmd
 //vc:  requires[C11] sendAllowed(isCompareRun, loginPass, cmd)
+//vc:  set lastOutput = result
+//vc:  ensures[C06] lastOutput == result
 
 //vc:func (*Conn).SendCmd
 //vc:  requires[C11] sendAllowed(isCompareRun, loginPass, cmd)
 
 //vc:func (*Conn).GetCmdOutput
 //vc:  requires[C11] sendAllowed(isCompareRun, loginPass, cmd)
+//vc:  set lastOutput = result
+//vc:  ensures[C06] lastOutput == result
+
+// C06 interlocks (ghost; assigned false at entry of device.ApproveOrCompare):
+// nameChecked   - the device reported the expected hostname (checkedName)
+// markerMissing - a managed-by marker is configured/required and the device lacks it
+// haActive      - PAN-OS: HA is disabled or this member is the active one
+//vc:ghost var nameChecked bool
+//vc:ghost var checkedName string
+//vc:ghost var markerMissing bool
+//vc:ghost var haActive bool
